@@ -261,7 +261,40 @@ func (p *Prog) SrcFuncs() []*ssa.Function {
 		}
 	}
 	var out []*ssa.Function
-	for fn := range ssautil.AllFunctions(p.SSA) {
+	all := map[*ssa.Function]bool{}
+	var addFn func(fn *ssa.Function)
+	addFn = func(fn *ssa.Function) {
+		if fn == nil || all[fn] {
+			return
+		}
+		all[fn] = true
+		for _, a := range fn.AnonFuncs {
+			addFn(a)
+		}
+	}
+	// every declared function and every method of every named type of the loaded packages
+	// (ssautil.AllFunctions only visits methods of types converted to interfaces)
+	for _, sp := range p.SSA.AllPackages() {
+		if !loaded[sp.Pkg.Path()] {
+			continue
+		}
+		for _, mem := range sp.Members {
+			switch m := mem.(type) {
+			case *ssa.Function:
+				addFn(m)
+			case *ssa.Type:
+				for _, t := range []types.Type{m.Type(), types.NewPointer(m.Type())} {
+					ms := p.SSA.MethodSets.MethodSet(t)
+					for i := 0; i < ms.Len(); i++ {
+						if mf := p.SSA.MethodValue(ms.At(i)); mf != nil && mf.Synthetic == "" {
+							addFn(mf)
+						}
+					}
+				}
+			}
+		}
+	}
+	for fn := range all {
 		if fn.Blocks == nil {
 			continue
 		}
